@@ -149,3 +149,13 @@ func init() {
 		Assumptions: []string{"_getLE64/getLE64 load the little-endian word at the start of their argument; lcp/lcs return exact common prefix/suffix lengths"},
 	}
 }
+
+func init() {
+	properties["C09"] = &Property{
+		Title: "suffix.Sort / LCP / InvertSA (narrow structural clauses)",
+		Rules: []string{"R-TEXT-RO", "R-LCP-INPUTS", "R-KASAI", "R-INVERT"},
+		Decided: "package suffix never writes a byte slice (the text is not modified); LCP reaches its core only with consistent lengths and with a supplied or freshly computed sa / sainv of the same text; the LCP core has the shape of the Kasai/phi recurrence including lcp[0] = 0; InvertSA stores sainv[sa[j]] = j for all j.",
+		NotDecided: "that Sort produces the suffix array (B*-substring sort, tandem-repeat sort, induced sorting: ssort.go, trsort.go, k1.go) and its independence of the previous contents of sa — a value property of a 1,600-line in-place algorithm with sign-bit markers; no sound static argument is in reach and none is claimed. Defects inside the sorters (e.g. seeded C09-1, C09-2) are NOT detected by this check.",
+		Assumptions: []string{"matchLen returns the exact common prefix length of its arguments"},
+	}
+}
